@@ -70,11 +70,28 @@ func c08Cells() []c08Cell {
 	cells := []c08Cell{
 		{"SR.reports", func(r *core.Rand, l int) c08Probe {
 			n, over := lvl(l, 30, 31, 32, 33+r.Intn(300))
-			return pkt(&rtcp.SenderReport{SSRC: r.U32(), NTPTime: r.U64(), Reports: reportsN(r, n)}, over)
+			sr := &rtcp.SenderReport{SSRC: r.U32(), NTPTime: r.U64(), Reports: reportsN(r, n)}
+			if r.Bool() {
+				sr.ProfileExtensions = r.Bytes(r.Pick(1, 2, 3, 4, 5, 7, 8, 9, 64)) // also lengths that need padding
+			}
+			if len(sr.ProfileExtensions)%4 != 0 {
+				// the reference encodes aligned extensions only; the library pads with zeros (repair F4)
+				padded := *sr
+				padded.ProfileExtensions = append(append([]byte(nil), sr.ProfileExtensions...), make([]byte, 4-len(sr.ProfileExtensions)%4)...)
+				if e, err := ref.Encode(&padded, ref.Lib); err == nil {
+					return c08Probe{over: over, marshal: sr.Marshal, want: e.B, value: sr}
+				}
+				sr.ProfileExtensions = padded.ProfileExtensions
+			}
+			return pkt(sr, over)
 		}},
 		{"RR.reports", func(r *core.Rand, l int) c08Probe {
 			n, over := lvl(l, 30, 31, 32, 33+r.Intn(300))
-			return pkt(&rtcp.ReceiverReport{SSRC: r.U32(), Reports: reportsN(r, n)}, over)
+			rr := &rtcp.ReceiverReport{SSRC: r.U32(), Reports: reportsN(r, n)}
+			if r.Bool() {
+				rr.ProfileExtensions = r.Bytes(r.Pick(1, 2, 3, 4, 5, 7, 8, 9, 64))
+			}
+			return pkt(rr, over)
 		}},
 		{"SDES.chunks", func(r *core.Rand, l int) c08Probe {
 			n, over := lvl(l, 30, 31, 32, 33+r.Intn(300))
